@@ -245,7 +245,8 @@ func minI(a, b int) int {
 
 func TestC07(t *testing.T) {
 	p := &world.Profile{Name: "reuse", MinGroups: 1, MaxGroups: 2, Fleet: 1, Auto: 1, MaxInit: 10, SmallGraces: true, Steps: 25, Stale: true,
-		Weights: with(baseWeights(), "targetUtil", 12, "taintExt", 8, "fault", 2, "asgEdit", 1, "cordon", 2, "clearNode", 2)}
+		FaultFocus: "node-writes",
+		Weights: with(baseWeights(), "targetUtil", 12, "taintExt", 8, "fault", 4, "asgEdit", 1, "cordon", 2, "clearNode", 2, "drainAndForce", 3, "setCreated", 1)}
 	col := newCollector(t, "C07", "history check; scans that untaint or request capacity; non-trivial = 0 < tainted pool < need (partial reuse), creation-time ties in the pool, a failed untaint, or force removal earlier in the same scan; distinct by those flags and pool/need sizes")
 	historyCheck(t, &historyOpts{prop: "C07", profile: p, col: col, classify: func(w *world.World, rec *world.ScanRecord) []string {
 		var keys []string
@@ -283,7 +284,8 @@ func TestC07(t *testing.T) {
 
 func TestC08(t *testing.T) {
 	p := &world.Profile{Name: "oldest", MinGroups: 1, MaxGroups: 1, Auto: 1, MaxInit: 14, SmallGraces: true, Steps: 12, Stale: true, MaxBelowASG: 1,
-		Weights: map[string]int{"scan": 10, "targetUtil": 8, "fault": 3, "launch": 2, "taintExt": 1, "cordon": 1, "advance": 1, "removeTaint": 1}}
+		FaultFocus: "node-writes",
+		Weights: map[string]int{"scan": 10, "targetUtil": 8, "fault": 3, "launch": 2, "taintExt": 1, "cordon": 1, "advance": 1, "removeTaint": 1, "setCreated": 3}}
 	col := newCollector(t, "C08", "history check; scale-down scans; non-trivial = 0 < tainted < untainted with >= 2 distinct creation times and a view order that is not already oldest-first; also ties and failed writes; distinct by (k, U, distinct times, sorted, ties, failed, stale)")
 	historyCheck(t, &historyOpts{prop: "C08", profile: p, col: col, classify: func(w *world.World, rec *world.ScanRecord) []string {
 		var keys []string
@@ -463,7 +465,7 @@ func TestC11(t *testing.T) {
 
 func TestC12(t *testing.T) {
 	p := &world.Profile{Name: "isolation", MinGroups: 2, MaxGroups: 3, Dry: 1, Fleet: 1, Auto: 1, Default: 1, MaxInit: 6, SmallGraces: true, Steps: 30,
-		Weights: with(baseWeights(), "targetUtil", 12, "taintExt", 4, "fault", 2, "advance", 6)}
+		Weights: with(baseWeights(), "targetUtil", 12, "taintExt", 4, "fault", 2, "advance", 6, "addPods", 6, "drainAndForce", 1)}
 	col := newCollector(t, "C12", "history check with 2-3 groups; non-trivial = a scan in which at least two groups act, or one group fails non-fatally before another is processed; distinct by (acting groups, failing group position, default group present)")
 	historyCheck(t, &historyOpts{prop: "C12", profile: p, col: col, classify: func(w *world.World, rec *world.ScanRecord) []string {
 		acting, failedBefore := 0, false
@@ -542,7 +544,7 @@ func TestC15History(t *testing.T) {
 
 func TestC19History(t *testing.T) {
 	p := &world.Profile{Name: "removal", MinGroups: 1, MaxGroups: 2, Auto: 1, MaxInit: 8, SmallGraces: true, Steps: 30, Stale: true,
-		Weights: with(baseWeights(), "taintExt", 8, "advance", 9, "detach", 3, "fault", 3, "clearNode", 3, "asgEdit", 2, "asgDesired", 2, "gcNodes", 1)}
+		Weights: with(baseWeights(), "taintExt", 8, "advance", 9, "detach", 3, "fault", 3, "clearNode", 3, "asgEdit", 2, "asgDesired", 2, "gcNodes", 1, "drainAndForce", 2)}
 	col := newCollector(t, "C19", "history half: ordering of cloud terminations and node deletions; non-trivial = a removal batch of >= 2 with a failure or foreign node inside it, two batches in one scan, a not-in-group exit, or an ASG-minimum refusal; distinct by those flags and sizes")
 	historyCheck(t, &historyOpts{prop: "C19", profile: p, col: col, classify: func(w *world.World, rec *world.ScanRecord) []string {
 		var keys []string
@@ -621,4 +623,32 @@ func sortStrings(s []string) {
 			s[j], s[j-1] = s[j-1], s[j]
 		}
 	}
+}
+
+
+// ---------------------------------------------------------------- C13 (end-to-end half)
+
+func TestC13History(t *testing.T) {
+	p := &world.Profile{Name: "gauges", MinGroups: 1, MaxGroups: 2, Auto: 1, Default: 1, MaxInit: 8, SmallGraces: true, Steps: 25, Stale: true,
+		Weights: with(baseWeights(), "addPods", 8, "targetUtil", 6, "cordon", 5, "taintExt", 4, "schedule", 2)}
+	col := newCollector(t, "C13", "end-to-end: after every scan the request and capacity gauges are compared with exact totals computed from the view (pods by the reference attribution, allocatable over untainted uncordoned nodes) with shuffled list orders; non-trivial = a scan with init containers or overhead among the pods, or cordoned/tainted nodes next to untainted ones, in a shuffled order; distinct by (pods, classes present, shuffled)")
+	historyCheck(t, &historyOpts{prop: "C13", profile: p, col: col, classify: func(w *world.World, rec *world.ScanRecord) []string {
+		var keys []string
+		for _, gr := range rec.Groups {
+			if !gr.Processed || gr.Dry || gr.Gauge["cpu_request"] == world.GaugeUnset {
+				continue
+			}
+			special := 0
+			for _, p := range gr.GV.Pods {
+				if len(p.Spec.InitContainers) > 0 || p.Spec.Overhead != nil {
+					special++
+				}
+			}
+			mixed := len(gr.GV.Untainted) > 0 && len(gr.GV.Cordoned)+len(gr.GV.Tainted)+len(gr.GV.Force) > 0
+			if special > 0 || mixed {
+				keys = append(keys, fmt.Sprintf("gauges|pods=%d|special=%d|cord=%d|taint=%d|force=%d|U=%d", minI(len(gr.GV.Pods), 6), minI(special, 3), minI(len(gr.GV.Cordoned), 2), minI(len(gr.GV.Tainted), 2), minI(len(gr.GV.Force), 2), minI(len(gr.GV.Untainted), 4)))
+			}
+		}
+		return keys
+	}})
 }
